@@ -55,44 +55,74 @@ Definition top7 (kws : list kw) : list kw :=
 
 Definition is_null_alt (s : js) : bool := match s with JS [KwType [JNull]] => true | _ => false end.
 
-(* to_open_api_3_0 *)
-Definition top_oas30 (kws : list kw) : list kw :=
-  let k1 := filter (fun k => match k with KwDepReq _ | KwPropertyNames _ | KwAddItems _ => false | _ => true end) (top19 kws) in
-  let k2 := isolate_ref k1 in
-  (* {"type": "null"} alternative of anyOf -> nullable *)
-  let null_alt := existsb (fun k => match k with KwAnyOf l => existsb is_null_alt l | _ => false end) k2 in
-  let k3 := map (fun k => match k with
-                          | KwAnyOf l => if existsb is_null_alt l then KwAnyOf (filter (fun a => negb (is_null_alt a)) l) else k
-                          | _ => k end) k2 in
-  (* list-valued "type" *)
-  let null_ty := existsb (fun k => match k with KwType ts => Nat.ltb 1 (List.length ts) && memt JNull ts | _ => false end) k3 in
-  let multi := flat_map (fun k => match k with
-                                  | KwType ts => let ts' := filter (fun t => negb (jtype_eqb t JNull)) ts in
-                                                 if Nat.ltb 1 (List.length ts) && Nat.ltb 1 (List.length ts')
-                                                 then map (fun t => JS [KwType [t]]) ts' else []
-                                  | _ => [] end) k3 in
-  let k4 := flat_map (fun k => match k with
-                               | KwType ts =>
-                                   if Nat.ltb 1 (List.length ts) then
-                                     let ts' := filter (fun t => negb (jtype_eqb t JNull)) ts in
-                                     if Nat.ltb 1 (List.length ts') then [] else [KwType ts']
-                                   else [k]
-                               | _ => [k] end) k3 in
-  let k5 := match multi with
-            | [] => k4
-            | _ => if existsb (fun k => match k with KwAnyOf _ => true | _ => false end) k4
-                   then map (fun k => match k with KwAnyOf l => KwAnyOf (l ++ multi) | _ => k end) k4
-                   else (k4 ++ [KwAnyOf multi])%list
-            end in
-  let k6 := if (null_alt || null_ty) && negb (nullable k5) then (k5 ++ [KwNullable])%list else k5 in
-  (* examples -> example *)
-  let k7 := if existsb (fun k => match k with KwAnnot n => String.eqb n "example" | _ => false end) k6
-            then filter (fun k => match k with KwAnnot n => negb (String.eqb n "examples") | _ => true end) k6
-            else map (fun k => match k with KwAnnot n => if String.eqb n "examples" then KwAnnot "example" else k | _ => k end) k6 in
-  (* const -> enum *)
-  if existsb (fun k => match k with KwEnum _ => true | _ => false end) k7
-  then filter (fun k => match k with KwConst _ => false | _ => true end) k7
-  else map (fun k => match k with KwConst p => KwEnum [p] | _ => k end) k7.
+(* to_open_api_3_0, stage by stage *)
+Definition is_anyof (k : kw) : bool := match k with KwAnyOf _ => true | _ => false end.
+Definition non_null (ts : list jtype) : list jtype := filter (fun t => negb (jtype_eqb t JNull)) ts.
+
+(* OPEN_API_3_0_UNSUPPORTED keywords are dropped *)
+Definition drop30 (kws : list kw) : list kw :=
+  filter (fun k => match k with KwDepReq _ | KwPropertyNames _ | KwAddItems _ => false | _ => true end) kws.
+(* {"type": "null"} alternative of anyOf -> nullable *)
+Definition any_null (kws : list kw) : bool :=
+  existsb (fun k => match k with KwAnyOf l => existsb is_null_alt l | _ => false end) kws.
+Definition strip_any (kws : list kw) : list kw :=
+  map (fun k => match k with
+                | KwAnyOf l => if existsb is_null_alt l then KwAnyOf (filter (fun a => negb (is_null_alt a)) l) else k
+                | _ => k end) kws.
+(* list-valued "type": null -> nullable, several other members -> anyOf *)
+Definition ty_null (kws : list kw) : bool :=
+  existsb (fun k => match k with KwType ts => Nat.ltb 1 (List.length ts) && memt JNull ts | _ => false end) kws.
+Definition multi_of (kws : list kw) : list js :=
+  flat_map (fun k => match k with
+                     | KwType ts => if Nat.ltb 1 (List.length ts) && Nat.ltb 1 (List.length (non_null ts))
+                                    then map (fun t => JS [KwType [t]]) (non_null ts) else []
+                     | _ => [] end) kws.
+Definition split_ty (kws : list kw) : list kw :=
+  flat_map (fun k => match k with
+                     | KwType ts =>
+                         if Nat.ltb 1 (List.length ts) then
+                           if Nat.ltb 1 (List.length (non_null ts)) then [] else [KwType (non_null ts)]
+                         else [k]
+                     | _ => [k] end) kws.
+(* result.setdefault("allOf", []).append(x) for every x *)
+Definition is_allof (k : kw) : bool := match k with KwAllOf _ => true | _ => false end.
+Definition push_allof (xs : list js) (kws : list kw) : list kw :=
+  match xs with
+  | [] => kws
+  | _ => if existsb is_allof kws
+         then map (fun k => match k with KwAllOf l => KwAllOf (l ++ xs) | _ => k end) kws
+         else (kws ++ [KwAllOf xs])%list
+  end.
+(* several non-null members: an anyOf of single types; beside an existing anyOf it goes in allOf (both must hold) *)
+Definition add_any (multi : list js) (kws : list kw) : list kw :=
+  match multi with
+  | [] => kws
+  | _ => if existsb is_anyof kws then push_allof [JS [KwAnyOf multi]] kws else (kws ++ [KwAnyOf multi])%list
+  end.
+Definition add_nullable (b : bool) (kws : list kw) : list kw :=
+  if b && negb (nullable kws) then (kws ++ [KwNullable])%list else kws.
+(* examples -> example *)
+Definition is_annot (n : string) (k : kw) : bool := match k with KwAnnot m => String.eqb m n | _ => false end.
+Definition examples30 (kws : list kw) : list kw :=
+  if existsb (is_annot "example") kws
+  then filter (fun k => negb (is_annot "examples" k)) kws
+  else map (fun k => if is_annot "examples" k then KwAnnot "example" else k) kws.
+(* const -> enum *)
+Definition has_enum (kws : list kw) : bool := existsb (fun k => match k with KwEnum _ => true | _ => false end) kws.
+Definition has_const (kws : list kw) : bool := existsb (fun k => match k with KwConst _ => true | _ => false end) kws.
+Definition is_const (k : kw) : bool := match k with KwConst _ => true | _ => false end.
+Definition const30 (kws : list kw) : list kw :=
+  if has_enum kws
+  then push_allof (flat_map (fun k => match k with KwConst p => [JS [KwEnum [p]]] | _ => [] end) kws)
+                  (filter (fun k => negb (is_const k)) kws)          (* beside an enum, the constant goes in allOf *)
+  else map (fun k => match k with KwConst p => KwEnum [p] | _ => k end) kws.
+
+(* what happens after the unsupported keywords are dropped and "$ref" is isolated *)
+Definition tail30 (k2 : list kw) : list kw :=
+  let k3 := strip_any k2 in
+  const30 (examples30 (add_nullable (any_null k2 || ty_null k3) (add_any (multi_of k3) (split_ty k3)))).
+
+Definition top_oas30 (kws : list kw) : list kw := tail30 (isolate_ref (drop30 (top19 kws))).
 
 Inductive version := V2020 | V2019 | V7 | VOAS30 | VOAS31.
 
